@@ -558,6 +558,28 @@ class BuiltinCalls:
             return Bottom()
         res = I.list_seq(state, acc)
         state.heap.pop(acc.loc, None)
+        # lemma L-A (reflexive count): when an enclosing loop walks the same sequence and the predicate holds for that
+        # loop's current element, the current element itself passes the filter, so the result is non-empty
+        if res.length.lo == 0 and not isinstance(f, NoneV):
+            for lc in reversed(I.loops):
+                ls = lc.seq
+                if ls is None or not ls.length.same(z.length):
+                    continue
+                if subst_val(ls.elem, {ls.kvar: ivar("$same")}) != subst_val(z.elem, {z.kvar: ivar("$same")}):
+                    continue
+                e_self = subst_val(z.elem, {z.kvar: ivar(lc.token)})
+                saved = (I.events, I.diags, I.obligations, I.raises, I.hooks, I.undecided)
+                I.events, I.diags, I.obligations, I.raises, I.hooks, I.undecided = [], {}, {}, [], {}, []
+                try:
+                    stq = state.copy()
+                    r = I.call_value(f, [e_self], {}, node, stq)
+                    t = None if stq.bottom else I.truth(stq, r)
+                finally:
+                    I.events, I.diags, I.obligations, I.raises, I.hooks, I.undecided = saved
+                if t is True:
+                    res = replace(res, length=Length(res.length.term, 1, res.length.hi))
+                    I.event("lemma", node, name="L-A", why="the filter predicate is reflexive on the enclosing loop's own element: the filtered sequence contains it")
+                    break
         I.event("filter", node, src=z, result=res, pred=f)
         return replace(res, kind="iter")
 
@@ -946,6 +968,25 @@ class BuiltinCalls:
             rng = None
             if x.rng is not None:
                 rng = table.get(name, Interval.top())
+                if name in ("erf", "tanh"):
+                    # odd, increasing, f(0) = 0
+                    if x.rng.ge0():
+                        rng = Interval(0.0, 1.0, x.rng.gt0() and False, False)
+                    elif x.rng.le0():
+                        rng = Interval(-1.0, 0.0, False, False)
+                    if x.rng.finite() and abs(x.rng.lo) < 6 and abs(x.rng.hi) < 6:
+                        f = math.erf if name == "erf" else math.tanh
+                        rng = rng.meet(Interval(f(x.rng.lo) - 1e-15, f(x.rng.hi) + 1e-15, False, False))
+                if name == "erfc":
+                    # decreasing, erfc(0) = 1, erfc > 0 for finite arguments below ~26.5
+                    if x.rng.ge0():
+                        rng = Interval(0.0, 1.0, False, False)
+                    elif x.rng.le0():
+                        rng = Interval(1.0, 2.0, False, False)
+                    if x.rng.hi < 26:
+                        rng = rng.meet(Interval(math.erfc(x.rng.hi) * (1 - 1e-12), 2.0, False, False))
+                    if x.rng.lo > -26 and x.rng.lo > -INF:
+                        rng = rng.meet(Interval(0.0, min(math.erfc(x.rng.lo) * (1 + 1e-12), 2.0), False, False))
                 if name in ("cosh", "sinh"):
                     ok = x.rng.abs().hi <= 710
                     I.oblige("exp", node, ok, f"{name} argument range {x.rng}")
